@@ -7,6 +7,7 @@ import (
 	"os"
 	"path/filepath"
 	"reflect"
+	"regexp"
 	"strings"
 	"sync/atomic"
 	"testing"
@@ -83,7 +84,7 @@ func genCase(t *rapid.T) Case {
 			"misspelt:top", "misspelt:crl", "misspelt:cdp", "misspelt:ocsp",
 			"invalid:mode", "invalid:storage_type", "invalid:update_interval", "invalid:signature_validation_mode",
 			"invalid:crl_fetch_mode", "invalid:crl_cdp_strict", "invalid:default_cache_duration", "invalid:ocsp_aia_strict",
-			"invalid:trusted_signature_cert", "invalid:trusted_responder_cert", "invalid:work_dir",
+			"invalid:trusted_signature_cert", "invalid:trusted_responder_cert", "invalid:work_dir", "surplus:value", "surplus:value",
 		}).Draw(t, "defect")
 		c.Typo = rapid.IntRange(0, 1000).Draw(t, "typo")
 	}
@@ -211,6 +212,23 @@ func runCase(c Case, x *ev.Ctx) error {
 	}
 	jsonCfg := renderJSON(c, f)
 	cfBody := renderCaddyfile(c, f)
+	surplusAt := ""
+	if c.Defect == "surplus:value" {
+		// Caddyfile only: one single-valued option of the (otherwise valid) configuration gets a second value on its line
+		lines := strings.Split(cfBody, "\n")
+		var at []int
+		for i, l := range lines {
+			if surplusRe.MatchString(l) {
+				at = append(at, i)
+			}
+		}
+		if len(at) > 0 {
+			i := at[c.Typo%len(at)]
+			surplusAt = strings.Fields(lines[i])[0]
+			lines[i] += []string{" surplus", " true", " \"30m\"", " memory"}[c.Typo/7%4]
+			cfBody = strings.Join(lines, "\n")
+		}
+	}
 	enabled := crlEnabled(c.Mode)
 
 	loadJSON := func() (*Eff, error) {
@@ -242,6 +260,21 @@ func runCase(c Case, x *ev.Ctx) error {
 		// a defect in a block that is not rendered does not exist
 		if !defectRendered(c) {
 			x.Class("defect-not-rendered")
+			return nil
+		}
+		if c.Defect == "surplus:value" {
+			if surplusAt == "" {
+				x.Class("defect-not-rendered")
+				return nil
+			}
+			if errJ != nil {
+				return fmt.Errorf("valid JSON config failed to provision: %v\n%s", errJ, jsonCfg)
+			}
+			if errC == nil {
+				return fmt.Errorf("Caddyfile config with a second value on the line of %s was accepted (the value is ignored) instead of being rejected at load time:\n%s", surplusAt, cfBody)
+			}
+			x.Classf("surplus-value-at=%s", surplusAt)
+			x.NonTrivial(fmt.Sprintf("neg|surplus|%s|%d", surplusAt, c.Typo/7%4))
 			return nil
 		}
 		if errJ == nil {
@@ -317,6 +350,8 @@ func runCase(c Case, x *ev.Ctx) error {
 	}
 	return nil
 }
+
+var surplusRe = regexp.MustCompile(`^\s*(mode|work_dir|storage_type|update_interval|signature_validation_mode|crl_fetch_mode|crl_cdp_strict|default_cache_duration|ocsp_aia_strict|crl_url|crl_file|trusted_signature_cert_file|trusted_responder_cert_file)\s+\S`)
 
 func defectRendered(c Case) bool {
 	switch c.Defect {
